@@ -449,6 +449,9 @@ pub fn run(cfg: &Cfg, rep: &mut Rep) {
     // lattice: thresholds x units
     let mut i = 0usize;
     for u in UNITS {
+        if cfg.fuzz {
+            break;
+        }
         let f = factor_f64(u);
         for t in [0.0, 1.0, 0.5, 1e-9, i64::MAX as f64 / f, MAX_NS as f64 / f, f64::MAX / f, 9007199254740992.0 / f, NPC as f64 / f, 1.0 / f, f64::MAX, f64::MIN_POSITIVE, 5e-324, f64::INFINITY, f64::NAN] {
             for d in -3i64..=3 {
@@ -464,7 +467,7 @@ pub fn run(cfg: &Cfg, rep: &mut Rep) {
         }
     }
     for (j, &c) in lat.iter().enumerate() {
-        if j % n == sh {
+        if j % n == sh && !cfg.fuzz {
             check_out(rep, mk(c));
         }
     }
@@ -472,6 +475,7 @@ pub fn run(cfg: &Cfg, rep: &mut Rep) {
     let nrand = cfg.budget(8_000_000);
     let ten_ky = 100 * NPC;
     for k in 0..nrand {
+        let k = cfg.k(k, &mut r);
         match k % 4 {
             0 | 1 => {
                 let u = *r.pick(&UNITS);
